@@ -185,6 +185,8 @@ for _cap in ("move", "move_x", "move_down", "clear_eos", "clear_eol", "clear_bol
 
 def _scroll_effect(a, st, res):
     st.ghost["scrolls"] = st.ghost.get("scrolls", z3.IntVal(0)) + 1
+    if "term.off" in st.ghost:      # tape model of C07 (contracts/cursorwindow.py): the screen moves one cell down the tape
+        st.ghost["term.off"] = st.ghost["term.off"] + 1
 
 
 scroll_down = Contract(M + "BaseWindow.scroll_down", "C07", ["self"], kind="method", shapes=[],
